@@ -55,6 +55,16 @@ def rowOut (n : Nat) (r0 : PRow) : Except Stop RowOut :=
 
 theorem deprecated_pinned' : deprecatedTypes = documentedDeprecated := by decide
 
+theorem keyIn_body (r : PRow) (k : String) (hk : k.toList ≠ "disabled".toList) : keyIn (body r) k = keyIn r k := by
+  unfold keyIn body
+  induction r with
+  | nil => rfl
+  | cons c cs ih =>
+    by_cases hc : c.1.head? = some "disabled".toList
+    · have : ¬ (c.1.head? = some k.toList) := by rw [hc]; intro h; exact hk (Option.some.inj h).symm
+      simp [List.filter_cons, hc, this, ih]
+    · simp [List.filter_cons, hc, ih]
+
 /-- the typed part of what is due -/
 theorem typedOut_ok (n : Nat) (r0 : PRow) (t : Str) (pkeys : List Str) (o : RowOut)
     (hact : active r0 = true) (hne : t ≠ []) (hty : rowType r0 = some t)
@@ -65,28 +75,31 @@ theorem typedOut_ok (n : Nat) (r0 : PRow) (t : Str) (pkeys : List Str) (o : RowO
     cases t with
     | nil => exact absurd rfl hne
     | cons c cs => simp [typed, hty]
+  have hcf : keyIn r0 "choice_filter" = keyIn (body r0) "choice_filter" := (keyIn_body r0 _ (by decide)).symm
   unfold typedOut at h
   rw [deprecated_pinned'] at h
   simp only [rowDue, disabledTrig, skippedTrig, deprecatedTrig, noLabelTrig, extNoFilterTrig, noMaxPixelsTrig,
     orOtherRow, hact, htyped, hty, hpk, plainQuestion, isSelectExternal, Bool.true_and, Bool.not_true, Bool.false_and,
-    Option.getD_some]
+    Option.getD_some, hcf]
   by_cases ha : t = "audit".toList
   · simp only [ha, if_true] at h
     cases h
     subst ha
     simp
-    split <;> rfl
+    split <;> simp
   · simp only [ha, if_false] at h
     by_cases hs : settingsTypes.contains t = true
     · simp only [hs, if_true] at h
       cases h
       cases hb : Rows.matchControl "begin" true t <;> simp_all
     · simp only [hs] at h
-      by_cases he : (Rows.matchControl "end" false t).isSome = true
-      · simp only [he, if_true] at h
+      cases he : Rows.matchControl "end" false t with
+      | some e =>
+        simp only [he, Option.isSome_some, if_true] at h
         cases h
         cases hb : Rows.matchControl "begin" true t <;> simp_all
-      · simp only [he] at h
+      | none =>
+        simp only [he, Option.isSome_none, Bool.false_eq_true, if_false] at h
         cases hb : Rows.matchControl "begin" true t with
         | some ct =>
           simp only [hb] at h
